@@ -256,7 +256,9 @@ class Summarizer:
                 if it.optional_vars is not None and isinstance(it.optional_vars, ast.Name):
                     p.env[it.optional_vars.id] = ce
             return self._body(st.body, [p], ci, dyn, depth, fn, mod)
-        if isinstance(st, (ast.While, ast.Try)):
+        if isinstance(st, ast.Try):
+            return self._try(st, p, ci, dyn, depth, fn, mod)
+        if isinstance(st, ast.While):
             raise AnalysisError(self.rule, fn.name, f'{type(st).__name__} is outside the loop-free subset of the path summariser')
         if isinstance(st, (ast.Import, ast.ImportFrom, ast.Global, ast.Nonlocal)):
             return [p]
@@ -270,6 +272,68 @@ class Summarizer:
             p.end = (type(st).__name__.lower(), None, st)
             return [p]
         raise AnalysisError(self.rule, fn.name, f'unsupported statement {type(st).__name__}')
+
+    # -- try / except ---------------------------------------------------------------------------------------------------
+    @staticmethod
+    def _raise_test(s: ast.stmt, handler_types) -> Optional[ast.AST]:
+        """For the membership idioms the condition under which statement `s` raises into a handler of these types, as an
+        expression (`a not in R`); None when the statement is not one of the idioms."""
+        call = s.value if isinstance(s, ast.Expr) else (s.value if isinstance(s, (ast.Assign, ast.AnnAssign)) else None)
+        catches = lambda *names: (not handler_types) or bool(set(names) & handler_types) or bool({'Exception', 'BaseException', 'LookupError'} & handler_types)  # noqa: E731
+        if isinstance(call, ast.Call) and isinstance(call.func, ast.Attribute) and call.func.attr == 'remove' and len(call.args) == 1 and catches('KeyError', 'ValueError'):
+            return ast.Compare(clone(call.args[0]), [ast.NotIn()], [clone(call.func.value)])
+        if isinstance(call, ast.Subscript) and not isinstance(call.slice, ast.Slice) and catches('KeyError', 'IndexError'):
+            return ast.Compare(clone(call.slice), [ast.NotIn()], [clone(call.value)])
+        return None
+
+    def _try(self, st: ast.Try, p: Path, ci, dyn, depth, fn, mod) -> List[Path]:
+        if st.finalbody or any(isinstance(x, (ast.Return, ast.Raise, ast.Try)) for b in st.body for x in ast.walk(b)):
+            raise AnalysisError(self.rule, fn.name, 'try with finally / return / raise / nested try inside its body is outside the subset of the path summariser')
+        out: List[Path] = []
+        types = []
+        for h in st.handlers:
+            t = h.type
+            names = set()
+            if t is None:
+                names = set()
+            else:
+                for n in ([t] if not isinstance(t, ast.Tuple) else t.elts):
+                    names.add(ast.unparse(n).split('.')[-1])
+            types.append(names)
+        all_types = set().union(*types) if all(types) else set()
+        # (a) some statement of the body raises into a handler
+        for i, s in enumerate(st.body):
+            may = any(isinstance(x, (ast.Call, ast.Subscript)) for x in ast.walk(s))
+            if not may:
+                continue
+            for h, names in zip(st.handlers, types):
+                test = self._raise_test(s, names)
+                q = p.fork()
+                pre = self._body(st.body[:i], [q], ci, dyn, depth, fn, mod)
+                for q2 in pre:
+                    if q2.end is not None:
+                        continue
+                    # normal completion of the idiom statements before i
+                    cond = subst(test, q2.env) if test is not None else ast.Name(f'__raises_line_{getattr(s, "lineno", 0)}__', ast.Load())
+                    q2.events.append(Ev('cond', s, test=cond, polarity=True))
+                    if h.name:
+                        q2.env[h.name] = ast.Name('__exception__', ast.Load())
+                    out += self._body(h.body, [q2], ci, dyn, depth, fn, mod)
+        # (b) nothing raises
+        norm = [p]
+        for s in st.body:
+            nxt = []
+            for q in norm:
+                if q.end is not None:
+                    nxt.append(q)
+                    continue
+                test = self._raise_test(s, all_types)
+                if test is not None:
+                    q.events.append(Ev('cond', s, test=subst(test, q.env), polarity=False))
+                nxt += self._stmt(s, q, ci, dyn, depth, fn, mod)
+            norm = nxt
+        norm = self._body(st.orelse, norm, ci, dyn, depth, fn, mod) if st.orelse else norm
+        return out + norm
 
     def _assign(self, t, val, st, p: Path):
         if isinstance(t, ast.Name):
@@ -311,7 +375,17 @@ class Summarizer:
         elif isinstance(cur, ast.Name) and cur.id in p.env and not isinstance(p.env[cur.id], (ast.Name, ast.Attribute, ast.Subscript)):
             base = cur.id           # a local container built here (dict/list literal, call result): not an alias
         else:
-            base = ast.unparse(subst(cur, p.env))
+            # a local alias of a sub-object of self (x = self.a[k1]; x[k2] = v  is a store to self.a[k1][k2])
+            sub = subst(cur, p.env)
+            pre = []
+            while isinstance(sub, ast.Subscript):
+                pre.insert(0, sub.slice)
+                sub = sub.value
+            if attr_key(sub) is not None and pre:
+                base = attr_key(sub)
+                keys = pre + keys
+            else:
+                base = ast.unparse(subst(cur, p.env))
         return base, keys
 
     def _for(self, st: ast.For, p: Path, ci, dyn, depth, fn, mod):
